@@ -310,3 +310,4 @@ class C09(Check):
 CHECK = C09()
 # scope added in later rounds, kept in the evidence text
 CHECK.rule += ' scaffold_1 may end in a 1-bp contig that no bait touches: a contig outside every bait counts as sequence absent from the map.'
+CHECK.rule += ' CLI family 4: untagged chromosomes plus one scaffold carrying a single haplotype tag, optional haplotig / contaminant, optional haplotype-prefixed scaffold absent from the map; at file level the component rows of all AGP files partition the input residues, and a whole-scaffold piece must be in the one file its tags name.'
